@@ -9,7 +9,7 @@
    NO theorem (seeded runs against the real linter only): include order, first include, preprocessor indentation
    (C20 models those), namespace versus path, forward declarations, brace / return formatting, cross-component and
    dependency rules, and all other validators.  "Silence on the whole tree" is an execution, not a theorem. *)
-From Symv Require Import Lint.Regex Lint.RegexProofs Base.PyOps Gen.LintPatterns Lint.LineRules Lint.LineRulesProofs.
+From Symv Require Import Lint.Regex Lint.RegexProofs Lint.Deps Lint.DepsProofs Base.PyOps Gen.LintPatterns Gen.LintDeps Lint.LineRules Lint.LineRulesProofs.
 Open Scope Z_scope.
 
 (* ---- the regex engine ---- *)
@@ -274,6 +274,46 @@ Theorem seeded_flagged_region_malformed : forall hdr l1 x l2,
   region_kind_of x = Some RInvalid -> In (mkf R (Z.of_nat (length l1) + 1) "invalid region") (lint_file hdr (l1 ++ x :: l2)).
 Proof. exact (fun hdr l1 x l2 H => lint_file_region hdr _ _ (region_invalid_reports l1 x l2 H)). Qed.
 Print Assumptions seeded_flagged_region_malformed.
+
+(* ---- dependency rules (DepsChecker over the regenerated deps.config) ---- *)
+Definition deps_fuel : nat := Z.to_nat (define_level_limit - define_level_start).
+Definition compiled_now : list rule := match create_rules deps_fuel deps_defines deps_lines with Some c => c | None => [] end.
+
+(* per-run kernel obligations: the nesting test is `level >= limit`; the shipped configuration parses completely, every
+   name is a translatable regex, expansion stays within the nesting limit and process_rules finds no loop *)
+Theorem deps_config_ok :
+  define_level_op = Ge /\ deps_unparseable = 0%nat /\ deps_untranslatable = 0%nat
+  /\ (if create_rules deps_fuel deps_defines deps_lines then true else false) = true.
+Proof. vm_compute. repeat split; reflexivity. Qed.
+
+(* fixed catalogue: catapult/crypto may include catapult/utils and the top-level catapult directory, not catapult/cache;
+   a single directory name is read relative to the including directory *)
+Theorem fixed_dependency_catalogue :
+     deps_allowed deps_names compiled_now (of_string "catapult/crypto") (of_string "catapult/utils") = true
+  /\ deps_allowed deps_names compiled_now (of_string "catapult/crypto") (of_string "catapult") = true
+  /\ deps_allowed deps_names compiled_now (of_string "catapult/crypto") (of_string "catapult/cache") = false
+  /\ deps_allowed deps_names compiled_now (of_string "catapult/utils") (of_string "catapult/cache") = false
+  /\ deps_allowed deps_names compiled_now (of_string "catapult/thread") (of_string "detail") = true.
+Proof. vm_compute. repeat split; reflexivity. Qed.
+
+Theorem define_expansion_is_leaf_product : forall fuel d lines ex a b,
+  process_defines fuel d lines = Some ex -> (In (a, b) ex <-> exists s t, In (s, t) lines /\ leaf d s a /\ leaf d t b).
+Proof. exact process_defines_spec. Qed.
+Print Assumptions define_expansion_is_leaf_product.
+
+(* PARTIAL (soundness half): every compiled allow-pair is a path in the graph of expanded rules.  Full statement: on an
+   acyclic graph the compiled pairs are exactly the paths of length >= 1, and a cycle yields the loop error. *)
+Theorem dependency_closure_sound_partial : forall ex t a b, process_rules ex = Some t -> In (a, b) (flatten t) -> reach ex a b.
+Proof. exact process_rules_sound. Qed.
+Print Assumptions dependency_closure_sound_partial.
+
+(* an include whose directories are not connected by any path of declared rules is reported *)
+Theorem seeded_flagged_dependency : forall table fuel d lines compiled src dest ex,
+  create_rules fuel d lines = Some compiled -> process_defines fuel d lines = Some ex ->
+  (forall a b, reach ex a b -> matches (name_regex table a) src = true -> matches (name_regex table b) (fixed_dest src dest) = true -> False) ->
+  deps_allowed table compiled src dest = false.
+Proof. exact dependency_flagged. Qed.
+Print Assumptions seeded_flagged_dependency.
 
 (* ---- undoing the edit gives back the file, hence the original report (silence for an accepted file) ---- *)
 Theorem unseed_restores : forall hdr f i k w l,
